@@ -14,6 +14,7 @@ mod c14;
 mod c15;
 mod c16;
 mod c17;
+mod c18;
 mod schema;
 mod c05;
 mod c06;
@@ -74,6 +75,7 @@ fn main() {
         "c15" => c15::run(&args),
         "c16" => c16::run(&args),
         "c17" => c17::run(&args),
+        "c18" => c18::run(&args),
         "c05" => c05::run(&args),
         "c06" => c06::run(&args),
         "c06b64" => c06::run_b64(&args),
